@@ -42,6 +42,8 @@ CLAIMED = {
          'Decides that stop() really stops listening (all three test servers), that one response is started per parsed request except on the stall path, that the buffer is re-scanned after a keep-alive response (pipelining), that content-length and generated length agree, and that parse failures close only the connection. Response contents and header semantics are not decided.', '4/C16'),
  'C19': ('static: record layouts from clang, structural sum of what is written per record against the recorded length in linear normal form, accepted-idiom check of the timestamp split, caller table of forward_packet with packet-type provenance, must-precede rules on the sequence counter',
          'Decides the writer side of the capture format: header struct layouts, file header fields, recorded length == bytes written == IP total length, timestamp split without narrowing and identical in both loggers, every TCP payload/EOF transmission and UDP wire send logged once before it leaves with true addresses, sequence stamped before the counter advances from zero. File-equals-sends is not decided.', '4/C19'),
+ 'C20': ('static: sibling rule over all channel-attaching functions, writer table and move-coverage of the segment limit, idiom check of the segmentation cut, exact-form check of the don\'t-fragment guard with reachability of capture/wire from its true edge',
+         'Decides that connector and accepted side both set the segment limit from the path-MTU query, that the limit survives a move, that segments are cut at min(remaining, limit), that payload is never altered and retransmission re-sends whole packets, and that the UDP DF test is exactly option && total > mtu with a silent reported-as-sent discard. Behaviour for all MTU values at run time is not decided.', '4/C20'),
 }
 
 NOT_YET = {}
